@@ -224,7 +224,8 @@ func (m *ModulusBasic) modSqrtGeneric(out, x *Nat) ct.Bool {
 
 // ModSqrt sets out = sqrt(x) (mod m) if it exists.
 func (m *ModulusBasic) ModSqrt(out, x *Nat) ct.Bool {
-	if m.Nat().IsProbablyPrime() == ct.True {
+	// The prime path (saferith's ModSqrt) only supports odd moduli; the even prime 2 takes the generic path.
+	if m.Nat().IsOdd()&m.Nat().IsProbablyPrime() == ct.True {
 		return m.modSqrtPrime(out, x)
 	} else {
 		return m.modSqrtGeneric(out, x)
